@@ -79,6 +79,14 @@ def scenarios(tier, rng):
                 i += 1
                 out.append({"id": "m%d" % i, "letters": seq, "handler": True, "slow": False, "topic": tp, "maxPayload": mx, "payloadLen": mx - 6})
                 i += 1
+    # messages without payload (what a broker sends when a retained message was cleared): two bytes after the topic of a
+    # QoS 1/2 PUBLISH are the identifier and nothing is missing; every message of such a scenario has tag 0
+    Q0 = {"p": "PUB", "q": 0, "id": 0, "dup": False}
+    for seq in ([Q0], [Q1], [Q2, R], [Q0, Q1, Q2, R], [Q2, dict(Q2, dup=True), R], [Q1, Q1, Q2, R, R]):
+        for tp in ("", "a", "s/\u6e29\u5ea6/z\u00fcrich"):
+            for h in (True, False):
+                out.append({"id": "z%d" % i, "letters": seq, "handler": h, "slow": False, "topic": tp, "emptyPayload": True})
+                i += 1
     # identifiers a broker hands out after some hundred deliveries: both bytes of the identifier count in every
     # acknowledgement (the exhaustive sequences above use identifiers below 256)
     for a, b in ((256, 257), (300, 0x1234), (0xFFFF, 0xFF00), (0x0100, 0x0001)):
